@@ -321,3 +321,27 @@ for _p, _t in {
  'C20': ' _incref tells the server and arms its finalizer on every path.',
 }.items():
     ADDED[_p] = ADDED.get(_p, '') + _t
+
+# round 6 (DESIGN.md section 20)
+for _p, _t in {
+ 'C01': ' The time-limit scan tests the hard limit of every job of a pass; every supervision tick refills the pool.',
+ 'C03': ' Worker.__reduce__ and its rebuild callable agree position by position (the handshake queue reaches a spawned worker).',
+ 'C04': ' The restart limiter counts inside one real window; every exit of the work loop passes the consumed-results wait.',
+ 'C05': ' One scan pass is not interrupted (no yield / return / break inside the per-job loop); the limits recorded for a '
+        'job are the caller\'s or the pool defaults, nothing derived.',
+ 'C06': ' The accepting worker is recorded as owner before the accept callback runs.',
+ 'C07': ' A new worker is entered in the per-pid tables right after start(), before the user hook.',
+ 'C08': ' Workers are signalled before the result handler is joined; the feeder sends the sentinels on every way out.',
+ 'C09': ' The worker leaves through os._exit(status) on every edge of its farewell; the limiter is consulted exactly for '
+        'abnormal statuses.',
+ 'C10': ' Only close() hands back all slots at once.',
+ 'C11': ' The reaper returns every recorded exit status unaltered.',
+ 'C12': ' The failure record keeps the exception object it was given.',
+ 'C13': ' close() forgets the handle on every way out of the low-level close.',
+ 'C15': ' An array made from an initialiser is filled through the type\'s constructor on every path.',
+ 'C16': ' Condition.notify / notify_all keep the sleeper / token accounting exact (join() depends on it).',
+ 'C18': ' Both ends key the digest with the key as given; a connection\'s descriptor gets no second owner.',
+ 'C19': ' The fork-server launcher reads the status only while no code is cached (`is None`, not truth).',
+ 'C20': ' An in-place proxy operator is one request; proxy methods forward their own arguments unchanged.',
+}.items():
+    ADDED[_p] = ADDED.get(_p, '') + _t
